@@ -211,6 +211,7 @@ def run(chk, facts, info):
     rule_address_modulo(chk, facts, P)
     from . import pc_snapshot
     pc_snapshot.run(chk, facts, 'C10-R13', min_instances=100)
+    carry_pair_rule(chk, facts, 'C10-R14')
     chk.rule('C10-R8', 'logical (PHASE-adjusted, EProgCounter()) and physical (ProgCounter()) addresses are never compared, '
              'subtracted or assigned across: a global assigned only from one kind is compared only with that kind',
              min_instances=2)
